@@ -4,8 +4,10 @@
 import Hv.VmdkDesc
 import Hv.Vmdk
 import Hv.Hdd
+import Hv.Concat
+import HvProofs.Concat
 namespace Hv.C10
-open Hv Hv.VmdkDesc
+open Hv Hv.VmdkDesc Hv.Concat
 
 /-- **wiring_total**: every data-bearing extent kind the property names is accepted by the
     extent grammar (the regex translated from the live pattern) *and* mapped to a disk by
@@ -15,5 +17,207 @@ theorem wiring_total :
       (parseExtentLine ("RW 2048 " ++ ty ++ " \"disk-f001.vmdk\"").toList).map (fun e => (e.type, wire e.type))
         = some (ty.toList, if ty = "FLAT" ∨ ty = "VMFS" then Wire.flat else Wire.sparse) := by
   decide
+
+/-! ### VMDK: the extent walk
+
+  `Contiguous 0 ds`: disk `i` has `sector_offset = Σ_{j<i} sector_count_j`, `sector_count > 0`,
+  `size = sector_count * 512` (`Hv.Concat`).  `ReadAs ds ps`: disk `i` has the length of part `i`
+  and its `read_sectors` returns the part's bytes for every in-range request. -/
+
+/-- closed form of `_disk_offsets` for such a layout: the start sectors of disks 1 … k-1 -/
+theorem diskOffsets_closed_form (v : Vmdk.Vmdk) (hc : Contiguous 0 v.disks.toList) :
+    v.diskOffsets = v.disks.toList.tail.map (·.sectorOffset) :=
+  diskOffsets_contiguous v hc
+
+/-- **bisect_finds_extent**: `bisect_right(self._disk_offsets, sector)` is the index of the
+    extent that contains `sector`, for every sector of the disk. -/
+theorem bisect_finds_extent (v : Vmdk.Vmdk) (hc : Contiguous 0 v.disks.toList) (sector : Nat)
+    (hs : sector < (v.disks.toList.map (·.sectorCount)).sum) :
+    ∃ hi : Vmdk.bisectRight v.diskOffsets sector < v.disks.size,
+      v.disks[Vmdk.bisectRight v.diskOffsets sector].sectorOffset ≤ sector ∧
+      sector < v.disks[Vmdk.bisectRight v.diskOffsets sector].sectorOffset
+                + v.disks[Vmdk.bisectRight v.diskOffsets sector].sectorCount := by
+  rw [diskOffsets_contiguous v hc]
+  cases hl : v.disks.toList with
+  | nil => rw [hl] at hs; simp at hs
+  | cons d ds =>
+    rw [hl] at hc hs
+    obtain ⟨e, he, hlo, hhi⟩ := bisect_contig sector ds d 0 hc (Nat.zero_le _) (by simpa [sectorsOf] using hs)
+    simp only [List.tail_cons]
+    rw [← hl, Array.getElem?_toList] at he
+    obtain ⟨hi, hget⟩ := Array.getElem?_eq_some_iff.mp he
+    exact ⟨hi, by rw [hget]; exact ⟨hlo, hhi⟩⟩
+
+/-- **vmdk_concat_read_correct**: `VMDK.read_sectors(sector, count)` returns exactly the bytes
+    of the concatenation of the extents — for requests inside one extent, crossing any number
+    of extent boundaries, and ending exactly at the end of the last extent. -/
+theorem vmdk_concat_read_correct (v : Vmdk.Vmdk) (ps : List Part) (hc : Contiguous 0 v.disks.toList)
+    (hr : ReadAs v.disks.toList ps) (sector count : Nat) (h : sector + count ≤ total ps) :
+    v.readSectors sector count = .ok (slice (concat ps) (sector * 512) (count * 512)) :=
+  readSectors_concat v ps hc hr sector count h
+
+/-- `VMDK._read` (the stream backend) on a sector-aligned offset: whole sectors of the concatenation -/
+theorem vmdk_concat_stream_read (v : Vmdk.Vmdk) (ps : List Part) (hc : Contiguous 0 v.disks.toList)
+    (hr : ReadAs v.disks.toList ps) (offset length : Nat) (ha : offset % 512 = 0)
+    (h : offset + length ≤ total ps * 512) :
+    v.read offset length = .ok (slice (concat ps) offset ((length + 511) / 512 * 512)) := by
+  unfold Vmdk.Vmdk.read
+  have hS : Vmdk.S = 512 := rfl
+  simp only [hS]
+  have hc' : (length + 512 - 1) / 512 = (length + 511) / 512 := rfl
+  rw [hc', readSectors_concat v ps hc hr _ _ (by omega)]
+  congr 2
+  omega
+
+/-- **size accounting**: `VMDK.__init__` gives disk `i` the offset `Σ_{j<i} sector_count_j` and the
+    stream the size `Σ size_i` — for *arbitrary* extent constructors -/
+theorem vmdk_assemble_size (mk : List (Nat → Vmdk.Disk)) :
+    (Vmdk.assemble mk).disks.toList = place 0 mk ∧
+    (Vmdk.assemble mk).size = ((Vmdk.assemble mk).disks.toList.map (·.size)).sum :=
+  ⟨assemble_disks mk, assemble_size mk⟩
+
+/-- `assemble` of constructors that honour the offset they are given produces a `Contiguous`
+    layout, and the stream size is `512 ×` the number of sectors -/
+theorem vmdk_assemble_contiguous (mk : List (Nat → Vmdk.Disk)) (h : ∀ f ∈ mk, GoodCtor f) :
+    Contiguous 0 (Vmdk.assemble mk).disks.toList ∧
+    (Vmdk.assemble mk).size = ((Vmdk.assemble mk).disks.toList.map (·.sectorCount)).sum * 512 := by
+  have hc : Contiguous 0 (Vmdk.assemble mk).disks.toList := by
+    rw [assemble_disks]; exact place_contiguous mk 0 h
+  exact ⟨hc, by rw [assemble_size, contiguous_size _ 0 hc]; rfl⟩
+
+/-- **flat extents, end to end**: a descriptor's FLAT / VMFS extents `(file, sectors)`, each file
+    holding its extent, opened as `RawDisk(fh, sectors * 512)` and assembled by `VMDK.__init__`,
+    read as the concatenation of the files' first `sectors * 512` bytes; the size is the sum. -/
+theorem vmdk_flat_extents_read_correct (exts : List (File × Nat))
+    (h : ∀ e ∈ exts, 0 < e.2 ∧ e.2 * 512 ≤ e.1.size) (sector count : Nat)
+    (hin : sector + count ≤ total (flatParts exts)) :
+    (Vmdk.assemble (flatCtors exts)).readSectors sector count
+        = .ok (slice (concat (flatParts exts)) (sector * 512) (count * 512)) ∧
+    (Vmdk.assemble (flatCtors exts)).size = total (flatParts exts) * 512 := by
+  have hg := flat_good exts h
+  have hc := (vmdk_assemble_contiguous _ hg).1
+  have hr : ReadAs (Vmdk.assemble (flatCtors exts)).disks.toList (flatParts exts) := by
+    rw [assemble_disks]; exact flat_readAs exts 0 h
+  refine ⟨readSectors_concat _ _ hc hr sector count hin, ?_⟩
+  rw [(vmdk_assemble_contiguous _ hg).2, ← readAs_sectors _ _ hr]; rfl
+
+/-! non-vacuity: three flat extents of 2, 1 and 3 sectors -/
+def exA : File := ⟨1024, fun i => UInt8.ofNat (i % 251)⟩
+def exB : File := ⟨600, fun i => UInt8.ofNat (7 * i % 256)⟩      -- 88 trailing bytes are not part of the extent
+def exC : File := ⟨1536, fun i => UInt8.ofNat (255 - i % 256)⟩
+def exExts : List (File × Nat) := [(exA, 2), (exB, 1), (exC, 3)]
+def exVmdk : Vmdk.Vmdk := Vmdk.assemble (flatCtors exExts)
+
+example : ∀ e ∈ exExts, 0 < e.2 ∧ e.2 * 512 ≤ e.1.size := by decide
+
+example : Contiguous 0 exVmdk.disks.toList :=
+  ⟨rfl, by decide, rfl, rfl, by decide, rfl, rfl, by decide, rfl, trivial⟩
+
+example : exVmdk.diskOffsets = [2, 3] ∧ exVmdk.size = 3072 := by decide
+
+/-- a request crossing both extent boundaries (sectors 1 … 3 of 6) evaluates to the pieces -/
+example : exVmdk.readSectors 1 3 = .ok (slice exA.byte 512 512 ++ slice exB.byte 0 512 ++ slice exC.byte 0 512) := by
+  decide +kernel
+
+/-- … and the tail of the disk, ending exactly at the end of the last extent, by the theorem -/
+example : exVmdk.readSectors 2 4 = .ok (slice (concat (flatParts exExts)) 1024 2048) :=
+  (vmdk_flat_extents_read_correct exExts (by decide) 2 4 (by decide)).1
+
+/-! ### Parallels `StorageStream`
+
+  `Tiles 0 l ps` (`Hv.Concat`): the storages, *in the order given*, tile `[0, end)` without gaps
+  (`start_0 = 0`, `start_{i+1} = end_i`, `start_i < end_i`) and stream `i` reads as part `i`.
+  Such a list is already sorted by `start` with strictly increasing keys, so the stable sort of
+  `StorageStream.__init__` is the identity on it (`sortByStart_tiles`, used inside). -/
+
+theorem storage_sort_identity (l : List Hdd.Storage) (ps : List Part) (ht : Tiles 0 l ps) :
+    Hdd.sortByStart l = l :=
+  sortByStart_tiles l ps 0 ht
+
+/-- size: `end` of the last storage `× 512` = total sectors `× 512` -/
+theorem storage_concat_size (l : List Hdd.Storage) (ps : List Part) (ht : Tiles 0 l ps) :
+    (Hdd.mk l).size = total ps * 512 ∧
+    (Hdd.mk l).size = (match l.getLast? with | some s => s.end_ * 512 | none => 0) := by
+  have h1 := mk_tiles l ps ht
+  refine ⟨by rw [h1], ?_⟩
+  show (match (Hdd.sortByStart l).getLast? with | some s => s.end_ * 512 | none => 0) = _
+  rw [sortByStart_tiles l ps 0 ht]
+
+/-- **storage_concat_read_correct**: `StorageStream._read(offset, length)` for a sector-aligned
+    `offset` and `offset + length ≤ size` returns the bytes of the concatenation from `offset`,
+    in whole sectors (`count = ceil(length / 512)`; the buffered stream layer above trims). -/
+theorem storage_concat_read_correct (l : List Hdd.Storage) (ps : List Part) (hne : l ≠ []) (ht : Tiles 0 l ps)
+    (offset length : Nat) (ha : offset % 512 = 0) (hin : offset + length ≤ total ps * 512) :
+    (Hdd.mk l).read offset length = .ok (slice (concat ps) offset ((length + 511) / 512 * 512)) :=
+  storage_read_concat l ps hne ht offset length ha hin
+
+/-- for a whole number of sectors: exactly the requested bytes -/
+theorem storage_concat_read_aligned (l : List Hdd.Storage) (ps : List Part) (hne : l ≠ []) (ht : Tiles 0 l ps)
+    (offset length : Nat) (ha : offset % 512 = 0) (hl : length % 512 = 0) (hin : offset + length ≤ total ps * 512) :
+    (Hdd.mk l).read offset length = .ok (slice (concat ps) offset length) := by
+  rw [storage_read_concat l ps hne ht offset length ha hin]
+  congr 2
+  omega
+
+/-- in general: the requested bytes are a prefix of what is returned -/
+theorem storage_concat_read_prefix (l : List Hdd.Storage) (ps : List Part) (hne : l ≠ []) (ht : Tiles 0 l ps)
+    (offset length : Nat) (ha : offset % 512 = 0) (hin : offset + length ≤ total ps * 512) :
+    ∃ bs, (Hdd.mk l).read offset length = .ok bs ∧ bs.take length = slice (concat ps) offset length :=
+  ⟨_, storage_read_concat l ps hne ht offset length ha hin, slice_take _ _ _ _ (by omega)⟩
+
+/-- **any order in the descriptor**: `StorageStream.__init__` sorts the storages by `start`; when
+    the *sorted* list (`sortByStart`, the transcription of `sorted(key=start)`) tiles `[0, end)`, the
+    stream built from the list in any order reads as the concatenation, and its size is the sum -/
+theorem storage_concat_read_any_order (l : List Hdd.Storage) (ps : List Part) (hne : ps ≠ [])
+    (ht : Tiles 0 (Hdd.sortByStart l) ps)
+    (offset length : Nat) (ha : offset % 512 = 0) (hin : offset + length ≤ total ps * 512) :
+    (Hdd.mk l).read offset length = .ok (slice (concat ps) offset ((length + 511) / 512 * 512)) ∧
+    (Hdd.mk l).size = total ps * 512 := by
+  have e : Hdd.mk l = Hdd.mk (Hdd.sortByStart l) := by
+    unfold Hdd.mk
+    rw [storage_sort_identity (Hdd.sortByStart l) ps ht]
+  have hne' : Hdd.sortByStart l ≠ [] := by
+    intro h
+    rw [h] at ht
+    cases ps with
+    | nil => exact hne rfl
+    | cons p ps => exact ht
+  rw [e]
+  exact ⟨storage_concat_read_correct _ ps hne' ht offset length ha hin, (storage_concat_size _ ps ht).1⟩
+
+/-- the executable layout checks the driver evaluates on every generated case are sound -/
+theorem contiguousb_sound (ds : List Vmdk.Disk) (h : contiguousb 0 ds = true) : Contiguous 0 ds :=
+  Concat.contiguousb_sound ds 0 h
+theorem tilesb_sound (l : List Hdd.Storage) (ps : List Part) (h : tilesb 0 l ps = true) (hr : StreamsRead l ps) :
+    Tiles 0 l ps := Concat.tilesb_sound l ps 0 h hr
+
+/-! non-vacuity: three storages of 1, 2 and 1 sectors, given in tiling order -/
+def exP : List Part := [⟨1, fun i => UInt8.ofNat (i % 251)⟩, ⟨2, fun i => UInt8.ofNat (3 * i % 256)⟩,
+                        ⟨1, fun i => UInt8.ofNat (255 - i % 256)⟩]
+def exStorages : List Hdd.Storage :=
+  [⟨0, 1, fun off len => .ok (slice (fun i => UInt8.ofNat (i % 251)) off len)⟩,
+   ⟨1, 3, fun off len => .ok (slice (fun i => UInt8.ofNat (3 * i % 256)) off len)⟩,
+   ⟨3, 4, fun off len => .ok (slice (fun i => UInt8.ofNat (255 - i % 256)) off len)⟩]
+
+theorem exTiles : Tiles 0 exStorages exP :=
+  ⟨rfl, by decide, rfl, fun _ _ _ => rfl, rfl, by decide, rfl, fun _ _ _ => rfl,
+   rfl, by decide, rfl, fun _ _ _ => rfl, trivial⟩
+
+example : (Hdd.mk exStorages).size = 2048 := by decide
+
+/-- a read across both storage boundaries evaluates to the pieces -/
+example : (Hdd.mk exStorages).read 512 1536
+    = .ok (slice (fun i => UInt8.ofNat (3 * i % 256)) 0 1024 ++ slice (fun i => UInt8.ofNat (255 - i % 256)) 0 512) := by
+  decide +kernel
+
+/-- … and an unaligned length over all three storages, by the theorem: whole sectors come back -/
+example : (Hdd.mk exStorages).read 0 1900 = .ok (slice (concat exP) 0 2048) :=
+  storage_concat_read_correct exStorages exP (by decide) exTiles 0 1900 (by decide) (by decide)
+
+
+/-- the same storages listed in another order (as a shuffled DiskDescriptor.xml would) -/
+example : (Hdd.mk [exStorages[2], exStorages[0], exStorages[1]]).read 0 1900 = .ok (slice (concat exP) 0 2048) :=
+  (storage_concat_read_any_order [exStorages[2], exStorages[0], exStorages[1]] exP (by decide)
+    (by show Tiles 0 exStorages exP; exact exTiles) 0 1900 (by decide) (by decide)).1
 
 end Hv.C10
